@@ -90,11 +90,12 @@ class VArr:
 
 class VStr:
     """abstract string: identity only (equal ids <=> equal strings); lit = python str for literals"""
-    __slots__ = ("id", "lit")
+    __slots__ = ("id", "lit", "bytes")
 
-    def __init__(self, id_, lit=None):
+    def __init__(self, id_, lit=None, bytes_=None):
         self.id = id_
         self.lit = lit
+        self.bytes = bytes_  # optional VSeq of u8: short strings modelled byte by byte (id is then a canonical function of the bytes)
 
     def __repr__(self):
         return f"VStr({self.lit if self.lit is not None else self.id})"
@@ -265,7 +266,7 @@ def vmap(v, f):
     if isinstance(v, VArr):
         return VArr([vmap(x, f) for x in v.elems])
     if isinstance(v, VStr):
-        return VStr(f(v.id), None)
+        return VStr(f(v.id), None, vmap(v.bytes, f) if v.bytes is not None else None)
     if isinstance(v, VClosure):
         return VClosure(v.name, [vmap(x, f) for x in v.caps])
     if isinstance(v, VBlob):
@@ -358,7 +359,8 @@ def merge(g, a, b):
     if isinstance(a, VStr):
         if a.lit is not None and a.lit == b.lit:
             return a
-        return VStr(merge(g, a.id, b.id))
+        by = merge(g, a.bytes, b.bytes) if (a.bytes is not None and b.bytes is not None) else None
+        return VStr(merge(g, a.id, b.id), None, by if not isinstance(by, VPoison) else None)
     if isinstance(a, VMap):
         return VMap(a.ksort, merge(g, a.present, b.present), merge(g, a.val, b.val), merge(g, a.count, b.count), a.cap, a.enum if a.enum is not None else b.enum)
     if isinstance(a, VClosure):
